@@ -16,6 +16,18 @@ M = [
  ('A9 mul: one-sided', VC, "    for x, y in ((a, b), (b, a)):", "    for x, y in ((a, b),):", ['VC_exact_mul', 'VC_mul_sound']),
  ('A10 mul: finite * finite may not be finite', VC, "    if a & _FINITE and b & _FINITE:\n        out |= _FINITE\n    return out", "    if a & _FINITE and b & _FINITE:\n        out |= _ZERO\n    return out", ['VC_mul_sound']),
  ('A11 add: empty operand not strict', VC, "    if not (a and b):\n        return _BOT             # an operand nothing reaches produces nothing\n    out = _BOT\n    if (a | b) & _NAN:", "    out = _BOT\n    if (a | b) & _NAN:", ['VC_exact_add']),
+ ('U1 _find: cuts x off (parent[x] = x)', UF, "            self._parent[x] = gparent", "            self._parent[x] = x", ['Unionfind__find']),
+ ('U2 _find: returns the parent, not the root', UF, "        parent = self._parent[x]\n        while x != parent:", "        parent = self._parent[x]\n        return parent\n        while x != parent:", ['Unionfind__find']),
+ ('U3 _find: advances without re-reading the parent (stale parent)', UF, "            x = gparent\n            parent = self._parent[x]", "            x = gparent", ['Unionfind__find']),
+ ('U4 _union: attaches y instead of its root', UF, "            self._parent[root_y] = root_x", "            self._parent[y] = root_x", ['Unionfind__union']),
+ ('U5 _union: attaches the wrong way round', UF, "            self._parent[root_y] = root_x", "            self._parent[root_x] = root_y", ['Unionfind__union']),
+ ('U6 _union: class of y not merged into _sets', UF, "            self._sets[root_x].update(self._sets[root_y])\n", "", ['Unionfind__union']),
+ ('U7 _union: stale _sets entry kept', UF, "            del self._sets[root_y]\n", "", ['Unionfind__union']),
+ ('U8 _union: returns root of y', UF, "            del self._sets[root_y]\n        return root_x", "            del self._sets[root_y]\n        return root_y", ['Unionfind__union']),
+ ('U9 union: no membership check of y', UF, "        if y not in self._parent:\n            raise KeyError(y, self._parent)\n", "", ['Unionfind_union']),
+ ('U10 find: returns x', UF, "            raise KeyError(x)\n        return self._find(x)", "            raise KeyError(x)\n        return x", ['Unionfind_find']),
+ ('U11 add: new element not its own parent set', UF, "            self._sets[x] = {x}\n            return x", "            return x", ['Unionfind_add']),
+ ('U12 add: existing element returned as is', UF, "        else:\n            return self._find(x)\n\n    def find", "        else:\n            return x\n\n    def find", ['Unionfind_add']),
 ]
 sel = sys.argv[1:]
 for name, f, old, new, contracts in M:
